@@ -419,7 +419,13 @@ func runPolicyPasses(seed uint64) (violation string, total passStats, passes, mu
 			if r.Chance(1, 2) && sz > 8 {
 				nm = sz/2 + uint64(r.Intn(int(sz/2)))
 			}
+			_, sampleBefore := p.SketchCounters()
 			p.SetMaximum(nm)
+			if _, sampleAfter := p.SketchCounters(); weighted && sampleAfter != sampleBefore {
+				// the sketch of a weighted policy is sized by the number of entries (policy.add), never by the
+				// weight bound: a new bound must not rebuild it - that drops every estimate of the running period
+				return fmt.Sprintf("SetMaximum(%d) on a weighted policy rebuilt the frequency sketch (sampling period %d -> %d recordings): the estimates of the running period are dropped although no entry count asked for a larger table", nm, sampleBefore, sampleAfter), total, passes, multi
+			}
 			if v := pass(); v != "" {
 				return v, total, passes, multi
 			}
